@@ -127,6 +127,10 @@ EDITS = {
     "empty:plane": [("set", "plane_distance_thresholds", [[]])],
     "task:foo": [("set", "evaluation_task", "foo")], "task:sensing": [("set", "evaluation_task", "sensing")],
     "per_label:max_x_position": [("set", "max_x_position", [10.0, 20.0, 30.0])],
+    # three target names, two of which resolve to the same label: still three target labels
+    "labels:alias": [("set", "target_labels", ["car", "vehicle.car", "pedestrian"])],
+    "labels:repeated": [("set", "target_labels", ["bicycle", "car", "car"])],
+    "per_label:center": [("set", "center_distance_thresholds", [[1.0, 2.0, 3.0]])],
 }
 
 
